@@ -1,8 +1,10 @@
 package ctfe
 
 import (
+	"bytes"
 	"context"
 	"encoding/base64"
+	"encoding/json"
 	"flag"
 	"fmt"
 	"github.com/google/trillian"
@@ -107,7 +109,8 @@ type World struct {
 	sths      []*servedSTH
 	opSeq     int // global event sequence for real-time order
 	x         *extState
-	sib       *replica // C01: a second log in the same process, with its own key, tree and backend
+	sib       *replica // C01, C06: a second log in the same process, with its own key, tree and backend
+	sibSTHs   []*servedSTH
 	legacy    *replica // C14: a default-mode instance on the same backend (entries stored with their full chain)
 	rootsFile string
 	started   int
@@ -259,7 +262,7 @@ func (w *World) build() {
 		}
 		w.legacy = &replica{inst: inst}
 	}
-	if w.mode.Prop == "C01" && !w.mode.External && t.Chance(1, 2) {
+	if (w.mode.Prop == "C01" || (w.mode.Prop == "C06" && !s.Timed)) && !w.mode.External && t.Chance(1, 2) {
 		// one process usually serves several logs (ct_server with several LogConfigs): the same chain may reach
 		// two of them within one millisecond, and each must answer with its own id and its own signature
 		k := oracle.Keys(p.LogKeyKind)
@@ -624,10 +627,40 @@ func (w *World) nextOp() *Op {
 	case 0:
 		return w.genSubmit()
 	case 1:
-		return w.genRead()
+		op := w.genRead()
+		if w.mode.Prop == "C06" && w.sib != nil && op.Kind != "get-sth" && op.Kind != "get-roots" && t.Chance(1, 3) {
+			// the same question to the other log of the process - if a request of that kind is under way at the first
+			// log, with the very same parameters (whatever the front end shares between requests must not be shared
+			// between logs)
+			op.Sibling = true
+			for i := len(w.ops) - 1; i >= 0; i-- {
+				if o := w.ops[i]; o != op && !o.Checked && !o.Sibling && o.Kind == op.Kind && o.Bad == "" {
+					op.A, op.B, op.Hash, op.Query = o.A, o.B, o.Hash, o.Query
+					w.s.Probe("c06.sibling-twin-read")
+					break
+				}
+			}
+			w.s.Probe("c06.sibling-read")
+		}
+		return op
 	default:
 		return w.genBad()
 	}
+}
+
+// judgeSibling judges an operation sent to the sibling log (spec C06): the history oracle of C06 against the
+// sibling's own backend, key and served heads.
+func (w *World) judgeSibling(op *Op) {
+	if op.Sub != nil {
+		if op.Status == 200 {
+			w.checkSCT(op)
+		}
+		return
+	}
+	be, key, sths := w.be, w.logKey, w.sths
+	w.be, w.logKey, w.sths = w.sib.be, w.sib.key, w.sibSTHs
+	defer func() { w.sibSTHs = w.sths; w.be, w.logKey, w.sths = be, key, sths }()
+	oracleC06(w, op)
 }
 
 func (w *World) launch(op *Op) {
@@ -638,6 +671,7 @@ func (w *World) launch(op *Op) {
 	w.started++
 	w.opSeq++
 	op.StartSeq = w.opSeq
+	op.StartStep = w.s.Step()
 	op.StartT = w.s.Now()
 	rep := w.repFor(op)
 	if op.Legacy {
@@ -789,6 +823,9 @@ func (w *World) Options(s *kernel.Sim) []kernel.Option {
 	} else if s.FaultsOn() && w.started < w.prof.MaxOps {
 		opts = append(opts, kernel.Option{Key: "resign root", Weight: 1, Apply: func() { w.be.Sequence(0, true) }})
 	}
+	if w.sib != nil && w.mode.Prop == "C06" && len(w.sib.be.Log.Queued) > 0 {
+		opts = append(opts, kernel.Option{Key: "sequence sibling", Weight: 3, Apply: func() { w.sib.be.Sequence(-1, false) }})
+	}
 	if s.FaultsOn() && (w.active > 0 || w.started < w.prof.MaxOps) {
 		cw := clockWeights
 		if len(parked) == 0 {
@@ -832,10 +869,58 @@ func (w *World) AfterStep(s *kernel.Sim) {
 			s.Violate("panic", panicSite(op.Panic), "op%03d %s %s?%s: handler panicked: %s", op.ID, op.Kind, op.Path, op.Query, op.Panic)
 			continue
 		}
+		if !w.sthHasSource(op) {
+			continue
+		}
+		if op.Sibling && w.mode.Prop == "C06" {
+			w.judgeSibling(op)
+			continue
+		}
 		if w.mode.Oracle != nil {
 			w.mode.Oracle(w, op)
 		}
 	}
+}
+
+// sthHasSource: every STH served reports the backend's tree head - one the backend handed out while the request was
+// being served. A get-sth answered 200 that obtained no tree head of its own (the front end may share one lookup
+// between concurrent requests) must then carry a head that some successful lookup, answered during this request's
+// lifetime, returned; a head remembered from before the request began is not "the backend's" any more - least of all
+// when the lookups made meanwhile failed. True when there is nothing to object to.
+func (w *World) sthHasSource(op *Op) bool {
+	if op.Kind != "get-sth" || op.Status != 200 || op.Bad != "" || op.Sibling || w.auditing || w.s.Timed {
+		return true
+	}
+	for _, c := range op.Calls {
+		if c.RPC == "GetLatestSignedLogRoot" && c.Err == nil {
+			return true // judged against its own lookup by the property's oracle
+		}
+	}
+	var j sthJSON
+	if err := json.Unmarshal(op.RespBody, &j); err != nil {
+		return true // the property's oracle says what it thinks of that
+	}
+	be := w.be
+	be.mu.Lock()
+	calls := append([]*BackendCall(nil), be.AllCalls...)
+	be.mu.Unlock()
+	failed := 0
+	for _, c := range calls {
+		if c.RPC != "GetLatestSignedLogRoot" || c.Step < op.StartStep {
+			continue
+		}
+		if c.Err != nil || c.Decision.Kind != "ok" {
+			failed++
+			continue
+		}
+		if c.RootSize == j.TreeSize && bytes.Equal(c.RootHash, j.Root) {
+			w.s.Probe("sth.shared-lookup")
+			return true
+		}
+	}
+	w.s.Violate("sth-without-source", fmt.Sprintf("failed-lookups=%v", failed > 0), "op%03d get-sth answered 200 with a tree head of size %d although it obtained none itself and no successful backend lookup answered during the request (started at step %d) handed that head out; %d lookups failed meanwhile",
+		op.ID, j.TreeSize, op.StartStep, failed)
+	return false
 }
 
 // stalled counts the calls parked at the run's slow component.
